@@ -190,7 +190,7 @@ def match_known(known, kind, case):
 
 def run_correspondence(harness, prop, tier, seed, outdir):
     os.makedirs(outdir, exist_ok=True)
-    for fn in ("cases.txt", "impl.txt", "model.txt", "stats.json"):
+    for fn in ("cases.txt", "impl.txt", "model.txt", "stats.json", "current_case.txt", "hang.txt"):
         p = os.path.join(outdir, fn)
         if os.path.exists(p):
             os.remove(p)
@@ -198,7 +198,10 @@ def run_correspondence(harness, prop, tier, seed, outdir):
     rc, out = sh([harness, "gen", prop, tier, str(seed), outdir, corpus], timeout=7200)
     if rc != 0:
         # the harness process itself died (abort / stack overflow): that is a C05-type event
-        return dict(died=True, log=out[-3000:], rc=rc)
+        cur = os.path.join(outdir, "current_case.txt")
+        case = open(cur).read().strip() if os.path.exists(cur) else ""
+        hang = os.path.exists(os.path.join(outdir, "hang.txt"))
+        return dict(died=True, log=out[-3000:], rc=rc, case=case, hang=hang)
     driver = os.path.join(LEAN, ".lake", "build", "bin", "jmdriver")
     with open(os.path.join(outdir, "cases.txt"), "rb") as fi, open(os.path.join(outdir, "model.txt"), "wb") as fo:
         p = subprocess.run([driver], stdin=fi, stdout=fo, stderr=subprocess.PIPE, timeout=7200)
@@ -278,7 +281,7 @@ def main():
     known_hits = []
 
     if corr.get("died"):
-        violations.append(("harness-died", "", "the harness process died (abort/stack overflow/timeout): " + corr["log"][-500:], True))
+        violations.append(("hang" if corr.get("hang") else "abort", corr.get("case", ""), "the harness process died while executing this case (abort / stack overflow / hang watchdog), rc=%s: %s" % (corr.get("rc"), corr["log"][-300:]), True))
         corr = dict(evaluations=0, distinct_nontrivial=0, disagreements=[], n_disagreements=0, stats=dict(hist={}, gen_hist={}, violations=[], samples=[]), distinct_results=0)
 
     for v in corr["stats"].get("violations", []):
